@@ -55,8 +55,10 @@ type Obligation struct {
 	Solver  string
 	Millis  int64
 	Model   map[string]string
+	RawModel map[int]string
 	Script  string
 	ScriptQF string
+	SmallScript string
 	Inputs  []*Term
 	Queries []*Term
 	IsCover bool // vacuity/cover check: expected SAT
